@@ -95,7 +95,7 @@ def spec_asg(line):
         return False
     except (ValueError, RecursionError, MemoryError):
         return None
-    if not node.body:
+    if len(node.body) != 1:        # several statements on the line (`a = 1; b()`): not taken since the repair of the silent drops
         return False
     st = node.body[0]
     if isinstance(st, ast.Assign):
